@@ -192,6 +192,19 @@ pub fn run_c20(ctx: &Ctx) -> i32 {
                 // a flush whose deadline lies far beyond the run: no visible effect, but the command runs
                 c = Cmd::Flush { delay: Some([3600u32, 86_400][r.gen_range(0..2)]), quiet: r.gen_bool(0.3) };
             }
+            // nothing in a program may depend on real time: the servers run on the 1 Hz wall clock, and a counter
+            // created with an expiration of 1 or 100 s would expire sooner or later depending on how fast a
+            // configuration happens to run (F17)
+            if let Cmd::Counter { exp, .. } = &mut c {
+                if *exp != 0xffff_ffff && *exp < 1_000_000 {
+                    *exp = 0;
+                }
+            }
+            if let Cmd::Store { ttl, .. } = &mut c {
+                if *ttl != 0 && *ttl < 1_000_000 {
+                    *ttl = 0;
+                }
+            }
             let mut cas = 0u64;
             match &mut c {
                 Cmd::Store { cas: a, .. } | Cmd::Concat { cas: a, .. } | Cmd::Counter { cas: a, .. } | Cmd::Delete { cas: a, .. } => {
